@@ -312,25 +312,36 @@ func runEntry(res *RunResult, dir, hdir, entry, smtlog string, unroll, cross int
 		in.flush(in.tail)
 		in.batch, in.tail = nil, nil
 		if g.IsFalse() {
-			res.Status = "UNSUPPORTED: no path of the harness returns"
+			if len(in.findings) == 0 {
+				res.Status = "UNSUPPORTED: no path of the harness returns"
+			}
 			return
 		}
 		// witness: a model of one complete path through the harness, with the observed values
 		var obsVars []*Term
 		for i, o := range in.observes {
-			nm := fmt.Sprintf("%s#%d", o.Name, i)
-			res.ObsOrder = append(res.ObsOrder, nm)
-			v := Var("obs!"+nm, o.T.sort)
+			v := Var(fmt.Sprintf("obs!%d", i), o.T.sort)
 			in.solver.Assert(Eq(v, o.T))
-			obsVars = append(obsVars, v)
+			gv := Var(fmt.Sprintf("obsg!%d", i), BoolSort)
+			in.solver.Assert(Eq(gv, o.G))
+			obsVars = append(obsVars, v, gv)
 		}
 		if in.sat(g) {
 			res.Witness = in.solver.Model(in.vars)
 			res.Observes = map[string]string{}
-			for k, v := range in.solver.Model(obsVars) {
-				res.Observes[strings.TrimPrefix(k, "obs!")] = v
+			om := in.solver.Model(obsVars)
+			cnt := map[string]int{}
+			for i, o := range in.observes {
+				if om[fmt.Sprintf("obsg!%d", i)] != "true" {
+					continue // not on the witness path
+				}
+				nm := fmt.Sprintf("%s#%d", o.Name, cnt[o.Name])
+				cnt[o.Name]++
+				res.ObsOrder = append(res.ObsOrder, nm)
+				res.Observes[nm] = om[fmt.Sprintf("obs!%d", i)]
 			}
-		} else {
+		} else if len(in.findings) == 0 {
+			// (when findings were reported, their paths are cut off: an unreachable end is explained)
 			res.Status = "UNSUPPORTED: harness end is unreachable (vacuous)"
 		}
 	}()
